@@ -118,9 +118,9 @@ typedef enum {
 /* for the one tool that needs raw transitions */
 struct zrng_s {
 	stamp_t prev, next;
-	signed int offs:24;
-	unsigned int trno:8;
-} __attribute__((packed));
+	signed int offs;
+	unsigned int trno;
+};
 
 
 /**
